@@ -11,7 +11,7 @@ from .codec import OriginModel
 from .effects import Effects
 from .lin import Lin, Sym
 from .rules_C16 import CACHE_KINDS, check_counter, classify
-from .shared_state import (CacheInfo, SharedWrite, World, history_definite, recognise_cache, recognise_global_memo, recognise_slot_memo,
+from .shared_state import (int_constants, keyed_memo_key_mismatch, CacheInfo, SharedWrite, World, history_definite, recognise_cache, recognise_global_memo, recognise_slot_memo,
                            value_dependencies, write_is_definite)
 
 
@@ -449,6 +449,16 @@ def check_shared_writes(ctx, w: World, om: OriginModel) -> None:
                     _bad("C17.2", f"table {obj}: the stored value depends on {sorted(extra)}, which is not part of the key `{core.src(ci.key_expr)}`", where,
                             f"filled by {stores[0].origin_func}; a later call with a different {sorted(extra)[0]} and the same key gets the value of an earlier one")
                     continue
+        # (1c) a keyed memo in a module-level dict that is read under one key and written under another
+        if sw.field is None and sw.depth == 0 and obj in w.model.module_vars and "subscript-store:key" in kinds:
+            mm = None
+            for x in sws:
+                fi_x = w.model.funcs.get(x.origin_func)
+                if fi_x is not None:
+                    mm = mm or keyed_memo_key_mismatch(w.model, int_constants(w.model, fi_x.module), x.origin_func, obj.rsplit(".", 1)[-1])
+            if mm:
+                _bad("C17.1", f"keyed memo {obj} in {sw.origin_func} answers with an entry remembered for a different argument", where, mm)
+                continue
         # (2) one-slot memos: attribute of a singleton, or module-level variables
         memo = None
         for x in sws:
@@ -501,6 +511,7 @@ def check_shared_writes(ctx, w: World, om: OriginModel) -> None:
     for (func, fld), (ci, sws) in sorted(caches.items()):
         where = f"{w.rel_of(func)}:{w.model.funcs[func].node.lineno}"
         name = f"{sws[0].obj}.{fld}"
+        n0 = len(ctx.obligations)
         if ci.problems:
             for p in ci.problems:
                 ctx.unk("C17.1", f"cache {name} filled by {func}: {p}", where,
@@ -510,6 +521,9 @@ def check_shared_writes(ctx, w: World, om: OriginModel) -> None:
             ctx.ok("C17.1", f"cache {name}: slot store keyed by `{core.src(ci.key_expr)}`, placeholder handled, slot returned", where,
                    "a warm cache returns what a cold one would compute, provided the key is complete (C17.2)")
         check_cache_key(ctx, w, om, ci, name, where)
+        for o in ctx.obligations[n0:]:
+            o.extra.setdefault("owners", sorted({x.owner for x in sws} | {func}))
+            o.extra.setdefault("object", name)
     seen = set()
     for sw, attr in counters:
         if (sw.obj, attr) in seen:
